@@ -145,10 +145,7 @@ func genHist(r *Rng, tier string, n int, emit func(string)) {
 			methods[i] = Pick(cr, methodPool)
 		}
 		hostPct := Pick(cr, []int{0, 0, 30, 60})
-		pool := make([]string, 3+cr.Intn(14))
-		for i := range pool {
-			pool[i] = genPattern(cr, hostPct)
-		}
+		pool := genNestedPool(cr, 3+cr.Intn(14), hostPct)
 		var ops []string
 		hid := 0
 		k := 6 + cr.Intn(50)
